@@ -34,6 +34,9 @@ type Val struct {
 	// the prefix x[:len] of an array with X more slots holding sentinels; LL: X for the outer slice, XS[k] for element k
 	X  int   `json:"x,omitempty"`
 	XS []int `json:"xs,omitempty"`
+	// V > 0: this slice argument is handed over as the window arg0[V-1 : V-1+len] of argument #0's own array (two arguments
+	// sharing memory; its value is still L — invisible to the Coq model like X)
+	V int `json:"v,omitempty"`
 }
 
 func VZ(z int64) Val { return Val{T: "Z", Z: z} }
@@ -557,6 +560,12 @@ func record(d *fnDef, args []Val, coqWanted bool) {
 	default:
 		record1(d, args, coqWanted)
 		record1(d, sp, false)
+	}
+	// third shape, monitors only: a second slice argument whose value occurs as a window of the first one is handed over
+	// as that window of the first one's array (a helper that does not write must not care)
+	if va, ok := viewShape(d, args, shapeRNG); ok {
+		out.Count("view_shape_calls", d.name)
+		record1(d, va, false)
 	}
 }
 
